@@ -2,8 +2,8 @@
 From OV Require Import Base.Strs Syn.Escape Syn.Quote Syn.Ast Syn.Emitter Syn.Wf Lex.Pins_Lexer Gen.LexerGen
      Syn.Pins_Emitter Gen.EmitterGen Lex.Lexer Syn.Parser Rt.TokRound Rt.LexLinkBase Rt.LexLink.
 
-Theorem C01_escape_mirrors : forall s, escape_safe s = true -> unescape (escape s) = s.
-Proof. exact unescape_escape. Qed.
+Theorem C01_escape_mirrors : forall s, unescape (escape s) = s.
+Proof. exact unescape_escape_all. Qed.
 
 Theorem C01_needs_quotes_pinned : forall s, needs_quotes s = needs_quotes_pinned s.
 Proof. exact needs_quotes_is_pinned. Qed.
